@@ -25,12 +25,19 @@
 //! The "inlines keys of at most 42 bytes" boundary cannot be hit exactly with the supported key
 //! types (36/37-byte encodings inline, ecdsa/rsa hash); the 42/43 boundary is exercised on the
 //! decoding side.
-use std::str::FromStr;
+use std::{
+    str::FromStr,
+    sync::atomic::AtomicU32,
+};
 
 use libp2p_identity::{Keypair, PeerId, PublicKey};
 use vmon::{Args, Check, Rng, Sig, catch, hex, json, pb};
 
 use crate::util::{self, *};
+
+static S_BYTES: AtomicU32 = AtomicU32::new(0);
+static S_TEXT: AtomicU32 = AtomicU32::new(0);
+static S_KEY: AtomicU32 = AtomicU32::new(0);
 
 #[derive(Debug, PartialEq, Eq, Clone, Copy)]
 enum Ref {
@@ -193,7 +200,7 @@ fn judge_peer_id_bytes(check: &Check, b: &[u8], origin: &str) {
     }
     let sig = Sig::new().bytes(b).0;
     check.case(sig, want != Ref::NotJudged);
-    if want == Ref::Accept && check.want_sample() {
+    if want == Ref::Accept && origin == "generated" && take_sample(&S_BYTES, 2) {
         check.sample(json!({"kind": "peer-id-bytes", "input_hex": hex(b), "class": why, "accepted": true}));
     }
 }
@@ -260,6 +267,9 @@ fn judge_peer_id_text(check: &Check, s: &str) {
     }
     check.count(if decoded.is_none() { "text_foreign_char" } else { "text_alphabet_only" }, 1);
     check.case(Sig::new().str(s).u64(7).0, want != Ref::NotJudged);
+    if want != Ref::NotJudged && take_sample(&S_TEXT, 1) {
+        check.sample(json!({"kind": "peer-id-text", "text": s, "reference": format!("{want:?}"), "accepted": got.is_ok()}));
+    }
 }
 
 /// one key: protobuf round trips, reference peer id, mutation totality
@@ -371,7 +381,7 @@ fn judge_key(check: &Check, kind: usize, kp: &Keypair, rng: &mut Rng, mutate_all
     let sig = Sig::new().bytes(&enc).u64(3).0;
     check.case(sig, true);
     check.count(&format!("keys_{kname}"), 1);
-    if check.want_sample() {
+    if take_sample(&S_KEY, 2) {
         check.sample(json!({"kind": "key", "key_type": kname, "public_protobuf_len": enc.len(), "peer_id": PeerId::from_public_key(&pk).to_base58()}));
     }
 }
